@@ -90,7 +90,10 @@ func keys(m map[string]bool) []string {
 	return out
 }
 
-func ruleLockAccess(c *Ctx, writes bool) {
+func ruleLockAccess(c *Ctx, writes bool) { ruleLockAccessFor(c, writes, nil) }
+
+// ruleLockAccessFor: only is nil for every guarded location, or selects the locations a property is about.
+func ruleLockAccessFor(c *Ctx, writes bool, only map[string]bool) {
 	a := c.muLK()
 	if a.err != "" {
 		c.und("engine", 0, "%s", a.err)
@@ -104,6 +107,9 @@ func ruleLockAccess(c *Ctx, writes bool) {
 	}
 	for _, as := range lk.Accesses() {
 		if as.Acc.Write != writes || as.Acc.Loc == "Server.aofdirty.Store" {
+			continue
+		}
+		if only != nil && !only[as.Acc.Loc] {
 			continue
 		}
 		key := as.Unit.Name + "→" + as.Acc.Loc + ":" + as.Acc.Desc
